@@ -261,7 +261,7 @@ fn gen_statement<T: Clone + Ord + concordium_base::common::Serialize>(r: &mut CR
         }
         // set non-membership
         2 => {
-            let size = *r.0.pick(&[1usize, 1, 2, 3, 5, 8, 9]);
+            let size = *r.0.pick(&[1usize, 1, 2, 3, 5, 8, 9, if want_true { 0 } else { 1 }]);
             let mut set = BTreeSet::new();
             let mut guard = 0;
             while set.len() < size && guard < 100 {
@@ -289,6 +289,14 @@ fn gen_statement<T: Clone + Ord + concordium_base::common::Serialize>(r: &mut CR
 
 /// Alter a statement (any alteration; the statement proved and the statement checked then differ).
 fn alter_statement<T: Clone + Ord + concordium_base::common::Serialize>(r: &mut CRng, st: &AtomicStatement<G1, T, Attr>, other_tag: Option<&T>) -> Option<(AtomicStatement<G1, T, Attr>, &'static str)> {
+    let (s, w) = alter_statement_(r, st, other_tag)?;
+    if to_bytes(&s) == to_bytes(st) {
+        return None;
+    }
+    Some((s, w))
+}
+
+fn alter_statement_<T: Clone + Ord + concordium_base::common::Serialize>(r: &mut CRng, st: &AtomicStatement<G1, T, Attr>, other_tag: Option<&T>) -> Option<(AtomicStatement<G1, T, Attr>, &'static str)> {
     let mut s = st.clone();
     if let (Some(t), true) = (other_tag, r.0.chance(1, 3)) {
         match &mut s {
@@ -430,7 +438,7 @@ fn id_statement_case(ctx: &ChildCtx, sh: &mut Shard, idx: u64, r: &mut CRng) {
         }
     }
     // ---- perturbations
-    let mut rej = |sh: &mut Shard, what: &str, res: Result<bool, String>| {
+    let rej = |sh: &mut Shard, what: &str, res: Result<bool, String>| {
         sh.evaluations += 1;
         sh.hit("reject.expected");
         sh.hit(&format!("perturb.id.{}", what));
@@ -445,17 +453,28 @@ fn id_statement_case(ctx: &ChildCtx, sh: &mut Shard, idx: u64, r: &mut CRng) {
             sh.violate(idx, "accepted-altered", format!("c18:id:accepted:{}:{}", what, sig_base), format!("verification succeeded although '{}' was altered", what), desc(json!({"altered": what})));
         }
     };
+    // ProofVersion::Version1 range proofs run on their own transcript
+    // ("attribute_range_proof") and are by construction not bound to the
+    // challenge / credential / global context; Version2 fixed that. The context
+    // is therefore only demanded to bind when some statement uses the shared transcript.
+    let context_bound = version == ProofVersion::Version2 || stmts.iter().any(|s| !matches!(s, AtomicStatement::AttributeInRange { .. }));
     let mut c2 = challenge.clone();
     c2.push(0);
-    rej(sh, "challenge", catch(|| swc.verify(version, &c2, g, &commitments, &proof)));
-    if !challenge.is_empty() {
-        let mut c3 = challenge.clone();
-        c3[0] ^= 1;
-        rej(sh, "challenge", catch(|| swc.verify(version, &c3, g, &commitments, &proof)));
-    }
     let swc2 = StatementWithContext { credential: cred.plus_point(&G1::one_point()), statement: Statement { statements: stmts.clone() } };
-    rej(sh, "credential_id", catch(|| swc2.verify(version, &challenge, g, &commitments, &proof)));
-    rej(sh, "global_context", catch(|| swc.verify(version, &challenge, other_global(), &commitments, &proof)));
+    if context_bound {
+        rej(sh, "challenge", catch(|| swc.verify(version, &c2, g, &commitments, &proof)));
+        if !challenge.is_empty() {
+            let mut c3 = challenge.clone();
+            c3[0] ^= 1;
+            rej(sh, "challenge", catch(|| swc.verify(version, &c3, g, &commitments, &proof)));
+        }
+        rej(sh, "credential_id", catch(|| swc2.verify(version, &challenge, g, &commitments, &proof)));
+        rej(sh, "global_context", catch(|| swc.verify(version, &challenge, other_global(), &commitments, &proof)));
+    } else {
+        let a = matches!(catch(|| swc.verify(version, &c2, g, &commitments, &proof)), Ok(true));
+        let b = matches!(catch(|| swc2.verify(version, &challenge, g, &commitments, &proof)), Ok(true));
+        sh.hit(if a && b { "observe.v1_range_only.context_not_bound" } else { "observe.v1_range_only.context_bound" });
+    }
     let ov = if version == ProofVersion::Version1 { ProofVersion::Version2 } else { ProofVersion::Version1 };
     rej(sh, "version", catch(|| swc.verify(ov, &challenge, g, &commitments, &proof)));
     for (i, s) in stmts.iter().enumerate() {
@@ -483,7 +502,9 @@ fn id_statement_case(ctx: &ChildCtx, sh: &mut Shard, idx: u64, r: &mut CRng) {
         rej(sh, "proof.dropped", catch(|| swc.verify(version, &challenge, g, &commitments, &p2)));
         let mut p3 = proof.clone();
         p3.proofs.swap(0, 1);
-        if to_bytes(&p3) != to_bytes(&proof) {
+        // two proofs of the very same statement are interchangeable (Version1 range proofs are
+        // not chained through the transcript): only a swap between different statements is judged
+        if to_bytes(&p3) != to_bytes(&proof) && to_bytes(&stmts[0]) != to_bytes(&stmts[1]) {
             rej(sh, "proof.reordered", catch(|| swc.verify(version, &challenge, g, &commitments, &p3)));
         }
     }
@@ -530,6 +551,7 @@ struct Cred {
     w_attrs: BTreeMap<String, Attr>,
     w_rands: BTreeMap<String, Randomness<G1>>,
     signature: Option<ed25519_dalek::Signature>,
+    #[allow(dead_code)]
     network: Network,
 }
 
@@ -715,7 +737,7 @@ fn presentation_case(ctx: &ChildCtx, sh: &mut Shard, idx: u64, r: &mut CRng) {
         Err(e) => sh.violate(idx, "rejected-true", format!("c18:pres:json-parse:{}", sig_base), format!("honest presentation does not parse back from its JSON: {}", e), desc(json!({"presentation": pres_json}))),
     }
     // ---- perturbations. strict: verification must fail. lenient (documented unchecked metadata): fail or different request.
-    let mut rej = |sh: &mut Shard, what: &str, strict: bool, p: &Presentation<G1, Attr>, public: &[CredentialsInputs<G1>], gc: &GlobalContext<G1>| {
+    let rej = |sh: &mut Shard, what: &str, strict: bool, p: &Presentation<G1, Attr>, public: &[CredentialsInputs<G1>], gc: &GlobalContext<G1>| {
         sh.evaluations += 1;
         sh.hit("reject.expected");
         sh.hit(&format!("perturb.pres.{}", what));
@@ -743,10 +765,20 @@ fn presentation_case(ctx: &ChildCtx, sh: &mut Shard, idx: u64, r: &mut CRng) {
         cb.copy_from_slice(challenge.as_ref());
         cb[r.0.below(32) as usize] ^= 1;
         v["presentationContext"] = serde_json::to_value(Challenge::new(cb)).unwrap();
-        if let Some(p2) = reparse(&v) {
-            rej(sh, "presentation_context", true, &p2, &public, g);
+        // a presentation without any atomic statement proves nothing that could bind the context;
+        // a web3 credential still binds the challenge through its linking signature
+        let n_atomic = truths.len();
+        let any_web3 = creds.iter().any(|c| c.web3);
+        if n_atomic > 0 || any_web3 {
+            if let Some(p2) = reparse(&v) {
+                rej(sh, "presentation_context", true, &p2, &public, g);
+            }
+        } else {
+            sh.hit("observe.pres.no_statements.context_not_demanded");
         }
-        rej(sh, "global_context", true, &pres, &public, other_global());
+        if n_atomic > 0 {
+            rej(sh, "global_context", true, &pres, &public, other_global());
+        }
     }
     // public inputs
     for (i, c) in creds.iter().enumerate() {
@@ -817,16 +849,25 @@ fn presentation_case(ctx: &ChildCtx, sh: &mut Shard, idx: u64, r: &mut CRng) {
                     rej(sh, w, true, p2, &public, g);
                 }
             }
-            // the proof of statement k replaced by the proof of another statement / dropped
-            let mut v = pres_json.clone();
-            if let Some(arr) = v["verifiableCredential"][i]["proof"]["proofValue"].as_array_mut() {
-                if arr.len() > 1 {
-                    arr.swap(0, 1);
-                    if let Some(p2) = reparse(&v) {
-                        if to_bytes_pres(&p2) != to_bytes_pres(&pres) {
-                            rej(sh, "proofs.reordered", true, &p2, &public, g);
-                        }
+            // the proofs of two different statements exchanged
+            if let Some(mut p2) = clone_pres(&pres_json) {
+                let applied = match &mut p2.verifiable_credential[i] {
+                    CredentialProof::Account { proofs, .. } if proofs.len() > 1 && to_bytes(&proofs[0].0) != to_bytes(&proofs[1].0) => {
+                        let a = proofs[0].1.clone();
+                        proofs[0].1 = proofs[1].1.clone();
+                        proofs[1].1 = a;
+                        true
                     }
+                    CredentialProof::Web3Id { proofs, .. } if proofs.len() > 1 && to_bytes(&proofs[0].0) != to_bytes(&proofs[1].0) => {
+                        let a = proofs[0].1.clone();
+                        proofs[0].1 = proofs[1].1.clone();
+                        proofs[1].1 = a;
+                        true
+                    }
+                    _ => false,
+                };
+                if applied {
+                    rej(sh, "proofs.exchanged", true, &p2, &public, g);
                 }
             }
         }
@@ -903,7 +944,8 @@ fn presentation_case(ctx: &ChildCtx, sh: &mut Shard, idx: u64, r: &mut CRng) {
         }
         if let Some(p2) = reparse(&v) {
             if to_bytes_pres(&p2) != to_bytes_pres(&pres) {
-                rej(sh, "credentials.reordered", true, &p2, &public, g);
+                // the returned request lists the statements in the presentation's order: lenient oracle
+                rej(sh, "credentials.reordered", false, &p2, &public, g);
             }
         }
     }
